@@ -1,4 +1,28 @@
-From Dns Require Import Model.NameWire.
-(* placeholder until Proofs/CompressProofs.v lands *)
-Theorem placeholder_C04 : cm_find [] [] = None.
-Proof. reflexivity. Qed.
+(* Props/C04.v — property C04 (name compression).  Only statements.
+   The clauses about the packer's compression map (transparency, never longer,
+   pointer validity) are carried by the correspondence check and its independent
+   wire reader until Proofs/CompressProofs.v lands (partial); the clauses below
+   are complete checks of the tables regenerated from zmsg.go on every run. *)
+From Dns Require Import Model.Msg Spec.RfcSets Proofs.LayoutProofs Gen.Layouts.
+Open Scope N_scope.
+
+(* names inside RDATA are packed with compression only for the RFC 1035 types
+   (RFC 3597 section 4) ... *)
+Theorem rdata_names_compressed_only_for_rfc1035_types :
+  forallb (fun L => negb (existsb (fun pf : pfield => compresses (snd pf)) (tl_pack L))
+                    || existsb (String.eqb (tl_name L)) rfc1035_compressible) layouts = true.
+Proof. exact only_rfc1035_types_compress_rdata. Qed.
+
+(* ... and every one of those types does compress all its RDATA names *)
+Theorem rfc1035_types_compress_their_names :
+  forallb (fun n => match find_layout layouts n with
+                    | Some L => forallb (fun pf : pfield => match snd pf with K_name c => c | _ => true end) (tl_pack L)
+                    | None => false end) rfc1035_compressible = true.
+Proof. exact rfc1035_types_do_compress. Qed.
+
+(* compressed names are accepted on input for every type: every name field of
+   every generated unpack() is read by the one name decoder that follows
+   pointers (the pack and unpack sides walk the same fields) *)
+Theorem unpack_sides_read_the_same_fields :
+  forallb (fun L => sides_agree (tl_pack L) (tl_unpack L)) layouts = true.
+Proof. exact pack_unpack_sides_agree. Qed.
